@@ -295,3 +295,16 @@ func RunReplay(name string, f func()) (outcome string) {
 	CheckFrames()
 	return
 }
+
+// Bound selects a harness bound by tier (quick, thorough). Natively the larger bound is used so
+// that witnesses from either tier replay.
+func Bound(quick, thorough int) int {
+	if thorough > quick {
+		return thorough
+	}
+	return quick
+}
+
+// Thorough reports whether the thorough tier is running (natively: true, so every branch a
+// witness may come from is compiled in and reachable).
+func Thorough() bool { return true }
